@@ -2,7 +2,8 @@
 
 Tie (a): translate/kernels/semprog.py compiles Queue.put/get, JoinableQueue.put/task_done/join,
 SimpleQueue.put/get (and the threading.Condition stand-in of harness/c16_fakes.py) from the working
-tree into coq/Gen/P_queue.v; Queue._feed is a hand translation guarded by an exact-text check.
+tree into coq/Gen/P_queue.v; Queue._feed is a hand translation guarded by an exact-text check, the test
+`self._thread is None` / the call `self._start_thread()` are compiled where the code has them.
 Tie (b): harness/c16_driver.py runs billiard's REAL queue classes, including the feeder thread
 Queue._feed, over harness/detsched.py under explicit schedules; the Coq interpreter consumes the
 same schedule; micro-traces, results, final semaphores, pipe and buffers must be identical;
@@ -19,37 +20,51 @@ from vlib import core
 from vlib.core import cz, cbool, clist
 
 MANIFEST = dict(
-    text='Theorems (Coq; any number of processes, each a main thread running any script of put/get/task_done/join calls plus '
-         'its feeder thread Queue._feed; any capacity; any schedule at semaphore/pipe/clock-operation grain, timed acquires and '
-         'polls giving up at any step, the deadline of a timed get passing at any clock reading; all Closed under the global '
-         'context), about the programs compiled from queues.py on every run (Gen = Model by reflexivity; _feed is a hand '
-         'translation guarded by an exact-text check): an inductive invariant holds in every reachable state: capacity '
-         'accounting sem + buffered + in pipe + in transit = maxsize (so at most maxsize items wait and no release of the '
-         'capacity semaphore raises); reader lock, writer lock and each _notempty lock have one holder on every path (including '
-         'the Empty paths of a timed get); per producer, the messages its puts appended = sent by its feeder ++ held by the '
-         'feeder ++ buffered, in order; the pipe is FIFO; the send log is an ORDER-PRESERVING merge of the producers (its '
-         'entries written by p are exactly p\'s send log); every message received is returned by exactly one get call or held '
-         'by a get about to return it, hence put-to-get exactness (accepted = returned + held + in pipe + with a feeder + '
-         'buffered, as multisets); _unfinished_tasks = puts counted - task_dones counted, task_done raises ValueError exactly '
-         'when that is 0 and join\'s test reads zero exactly then. On the choice go a put fails with Full exactly when the '
-         'semaphore is 0; a non-blocking get finds nothing exactly when the pipe is empty. Failing serialisation (the feeder '
-         'as repaired by 36337df: handler inside the loop, queue_sem.release()): the FIFO and no-loss identities hold for every '
-         'object that can be serialised, an object that cannot is the only loss (never sent, never received) and costs no '
-         'capacity (its token is in transit until the feeder releases it), a feeder never ends (C16_feeder_never_ends); the '
-         'witness of the former refutation is now the regression Example C16_later_put_is_delivered. Correspondence: the real '
-         'Queue / JoinableQueue / SimpleQueue, including the real feeder Queue._feed, run over the fake _semlock / pipe / '
-         'threading / clock of harness/detsched.py + c16_fakes.py under explicit schedules (items that cannot be pickled and '
-         'deadlines that pass included) and must produce the micro-trace, results, final semaphores, pipe and buffers the Coq '
-         'interpreter computes; Gallina monitors (loss/dup/order on the pipe traffic, results vs events, capacity at quiet '
-         'ends, every accepted picklable item written in order at a quiet end, an ended feeder thread, locks held by finished '
-         'calls, a get stuck beside a non-empty pipe, join/task_done) classify differences.',
+    text='Theorems (Coq; any number of main threads, each running any script of put/get/task_done/join calls and each with '
+         'the feeder thread Queue._feed its own _start_thread call would start, grouped into processes in ANY way: the main '
+         'threads of one process share its queue object (buffer, _notempty, _thread); any capacity; any schedule at '
+         'semaphore/pipe/clock/_start_thread-operation grain, timed acquires and polls giving up at any step, the deadline of a '
+         'timed get passing at any clock reading; all Closed under the global context), about the programs compiled from '
+         'queues.py on every run (Gen = Model by reflexivity; _feed is a hand translation guarded by an exact-text check; the '
+         'test `self._thread is None` and the call self._start_thread() are compiled WHERE the working tree has them, '
+         '_start_thread itself = one scheduling point QStartThread guarded by a shape check): an inductive invariant holds in '
+         'every reachable state: capacity accounting sem + buffered + in pipe + in transit = maxsize (so at most maxsize items '
+         'wait and no release of the capacity semaphore raises); reader lock, writer lock and each _notempty lock have one '
+         'holder on every path; per process, the messages its puts appended = sent by its feeder ++ held by THE feeder ++ '
+         'buffered, in order; per (process, THREAD) the messages a thread\'s puts appended are, in the order of its calls, a '
+         'subsequence of that append log (C16_fifo_per_thread); the pipe is FIFO; the send log is an ORDER-PRESERVING merge of '
+         'the processes; every message received is returned by exactly one get call or held by a get about to return it, hence '
+         'put-to-get exactness; _unfinished_tasks = puts counted - task_dones counted, task_done raises ValueError exactly when '
+         'that is 0 and join\'s test reads zero exactly then. SEVERAL PRODUCER THREADS PER PROCESS: the test-and-start is atomic '
+         'under _notempty (a thread that has read self._thread is None as true holds the lock, alone, no feeder started, nothing '
+         'buffered: C16_start_is_atomic_under_notempty), at most ONE feeder thread is ever started per process '
+         '(C16_one_feeder_per_process, C16_running_feeder_is_unique), _start_thread\'s buffer.clear() never drops an item '
+         '(C16_start_thread_clears_nothing), and every event trace of the model passes the monitors one_feeder_ok / clear_ok '
+         'that are evaluated on the traces of the real classes (C16_every_trace_passes_the_start_monitors); evaluated Example '
+         'C16_two_threads_of_one_process. On the choice go a put fails with Full exactly when the semaphore is 0; a non-blocking '
+         'get finds nothing exactly when the pipe is empty. Failing serialisation (feeder as repaired by 36337df): FIFO and '
+         'no-loss hold for every object that can be serialised, an object that cannot is the only loss and costs no capacity, a '
+         'feeder never ends. Correspondence: the real Queue / JoinableQueue / SimpleQueue, including the real feeder Queue._feed '
+         'and the real Queue._start_thread, run over the fake _semlock / pipe / threading / collections.deque / clock of '
+         'harness/detsched.py + c16_fakes.py under explicit schedules -- one main thread per process AND several main threads '
+         'sharing ONE queue object (two threads racing on the first put of a fresh queue, bounded-preemption exhaustive; random) '
+         '-- and must produce the micro-trace, results, final semaphores, pipe and buffers the Coq interpreter computes; Gallina '
+         'monitors (loss/dup/order per producer thread on the pipe traffic, results vs events, capacity at quiet ends, every '
+         'accepted picklable item written in order at a quiet end, more than one feeder thread started for one queue object, a '
+         'buffer.clear() that dropped an item, an ended feeder thread, locks held by finished calls, a get stuck beside a '
+         'non-empty pipe, join/task_done) classify differences; a bounded-preemption search in Coq over the program table '
+         'compiled on this run (also with two threads per process) proposes failing schedules, which are replayed on the real '
+         'classes before they are reported.',
     note='Trusted: Coq kernel; translate/kernels/semprog.py; semaphore primitive as in C17; threading.Condition modelled by '
          'harness/c16_fakes.TCond (lock + notification semaphore + waiter count); pipe = list of whole messages (C13 + locks), send '
          'never blocks; pickling modelled only as far as it can fail (messages >= 1000 are objects whose pickling raises); the '
-         'deadline of a timed get is an oracle at the point where the code computes deadline - monotonic(). PARTIAL: the sleeping '
-         'path of JoinableQueue.join (wait/notify_all) and SimpleQueue are covered by the correspondence, the monitors and the '
-         'search on the generated program only; Full for timed puts is an oracle choice; eventual delivery is liveness, not '
-         'modelled. The translator also recognises the feeder as it was before the repair (thread ends on a '
+         'deadline of a timed get is an oracle at the point where the code computes deadline - monotonic(); Queue._start_thread '
+         'is ONE step (clear the buffer, create, record and start the thread; the harness parks the caller at buffer.clear()), '
+         'the threads of a process interleave at the scheduling points only (GIL-atomic statements in between). PARTIAL: the '
+         'sleeping path of JoinableQueue.join (wait/notify_all) and SimpleQueue are covered by the correspondence, the monitors '
+         'and the search on the generated program only; Full for timed puts is an oracle choice; eventual delivery is liveness, '
+         'not modelled; get/task_done/join by several threads of one process are covered by the same theorems (they touch shared '
+         'semaphores only). The translator also recognises the feeder as it was before the repair (thread ends on a '
          'serialisation error) so that the check reports that behaviour concretely if it returns.',
     technique='Coq proof over translator-regenerated queue programs (weight functions + ghost logs + case analysis on pc) + schedule-exact differential correspondence on the real classes',
     ref='5.16',
@@ -87,6 +102,12 @@ SEARCH_QUICK = [
     # timed gets (the scheduler decides at `deadline - monotonic()` whether the deadline has passed)
     dict(kind='queue', maxsize=1, preemptions=1, shards=[1],
          scripts=[[[0, 0, 1, 11]], [[1, 1, 1, 0], [1, 0, 1, 0]]]),
+    # TWO PRODUCER THREADS OF ONE PROCESS (owners: pairs 0 and 1 are threads of process 0) racing on the first
+    # put of a fresh queue (the test `self._thread is None` / Queue._start_thread), one consumer process
+    dict(kind='queue', maxsize=2, preemptions=1, shards=[1], owners=[0, 0, 2],
+         scripts=[[[0, 0, 1, 11]], [[0, 0, 1, 12]], [[1, 0, 1, 0], [1, 0, 1, 0]]]),
+    dict(kind='joinable', maxsize=2, preemptions=1, shards=[1], owners=[0, 0, 2],
+         scripts=[[[3, 0, 1, 11]], [[3, 0, 1, 12]], [[1, 0, 1, 0], [4, 0, 0, 0]]]),
 ]
 # the quick tier when an obligation is broken (the generated program is no longer the hand-kept
 # model: failing-input search), and part of the thorough tier
@@ -109,12 +130,27 @@ SEARCH_DEEP = [
          scripts=[[[0, 0, 1, 11]], [[1, 1, 1, 0], [1, 0, 1, 0]]]),
     dict(kind='queue', maxsize=2, preemptions=1, shards=[1],
          scripts=[[[0, 0, 1, 11], [0, 1, 1, 12]], [[1, 1, 1, 0]], [[1, 1, 1, 0], [1, 1, 1, 0]]]),
+    # two producer threads of one process
+    dict(kind='queue', maxsize=2, preemptions=2, shards=[2], owners=[0, 0, 2],
+         scripts=[[[0, 0, 1, 11]], [[0, 0, 1, 12]], [[1, 0, 1, 0], [1, 0, 1, 0]]]),
+    dict(kind='queue', maxsize=3, preemptions=1, shards=[1], owners=[0, 0, 2],
+         scripts=[[[0, 0, 1, 11], [0, 0, 1, 13]], [[0, 0, 1, 12]], [[1, 0, 1, 0], [1, 0, 1, 0], [1, 0, 1, 0]]]),
+    dict(kind='joinable', maxsize=2, preemptions=2, shards=[2], owners=[0, 0, 2],
+         scripts=[[[3, 0, 1, 11]], [[3, 0, 1, 12]], [[1, 0, 1, 0], [4, 0, 0, 0]]]),
+    # producer threads and the consumer thread all in ONE process
+    dict(kind='queue', maxsize=2, preemptions=1, shards=[1], owners=[0, 0, 0],
+         scripts=[[[0, 0, 1, 11]], [[0, 0, 1, 12]], [[1, 0, 1, 0], [1, 0, 1, 0]]]),
 ]
 SEARCH_THOROUGH = [
     dict(kind='joinable', maxsize=1, preemptions=2, shards=[3, 3],
          scripts=[[[3, 0, 1, 11], [5, 0, 0, 0]], [[3, 0, 1, 12], [5, 0, 0, 0]], [[1, 0, 1, 0], [4, 0, 0, 0], [1, 0, 1, 0], [4, 0, 0, 0]]]),
     dict(kind='queue', maxsize=2, preemptions=2, shards=[3, 2],
          scripts=[[[0, 0, 1, 11], [0, 1, 1, 12]], [[0, 0, 1, 13]], [[1, 0, 1, 0], [1, 1, 1, 0], [1, 0, 0, 0]]]),
+    # three producer threads of one process, one consumer process
+    dict(kind='queue', maxsize=3, preemptions=1, shards=[2], owners=[0, 0, 0, 3],
+         scripts=[[[0, 0, 1, 11]], [[0, 0, 1, 12]], [[0, 0, 1, 13]], [[1, 0, 1, 0], [1, 0, 1, 0], [1, 0, 1, 0]]]),
+    dict(kind='queue', maxsize=2, preemptions=2, shards=[3], owners=[0, 0, 2],
+         scripts=[[[0, 0, 1, 11], [0, 0, 0, 13]], [[0, 0, 1, 12]], [[1, 0, 1, 0], [1, 0, 1, 0]]]),
 ]
 SEARCH_FUEL = 400
 
@@ -144,12 +180,27 @@ BOUNDED_QUICK = [
          scripts=[[[0, 0, 1, 1000], [0, 0, 1, 12]], [[1, 0, 1, 0]]]),
     dict(kind='joinable', maxsize=2, preemptions=0,
          scripts=[[[3, 0, 1, 11], [3, 0, 1, 1000], [3, 0, 0, 13]], [[1, 0, 1, 0], [4, 0, 0, 0]]]),
+    # two producer threads of ONE process (pairs 0 and 1 share the queue object of process 0), each doing the
+    # first put on a fresh queue; one consumer process
+    dict(kind='queue', maxsize=2, preemptions=1, owners=[0, 0, 2],
+         scripts=[[[0, 0, 1, 11]], [[0, 0, 1, 12]], [[1, 0, 1, 0], [1, 0, 1, 0]]]),
+    dict(kind='joinable', maxsize=2, preemptions=1, owners=[0, 0, 2], max_leaves=250,
+         scripts=[[[3, 0, 1, 11]], [[3, 0, 1, 12]], [[1, 0, 1, 0], [4, 0, 0, 0]]]),
+    # two threads of one process, two puts each, non-preemptive interleavings at blocking points only
+    dict(kind='queue', maxsize=1, preemptions=0, owners=[0, 0, 2],
+         scripts=[[[0, 0, 1, 11], [0, 0, 1, 13]], [[0, 0, 1, 12], [0, 0, 0, 14]], [[1, 0, 1, 0], [1, 0, 1, 0], [1, 1, 1, 0]]]),
 ]
 BOUNDED_THOROUGH = [
     dict(kind='joinable', maxsize=1, preemptions=2,
          scripts=[[[3, 0, 1, 11]], [[1, 0, 1, 0], [4, 0, 0, 0]], [[5, 0, 0, 0]]]),
     dict(kind='joinable', maxsize=2, preemptions=2,
          scripts=[[[3, 0, 1, 11], [3, 0, 1, 12]], [[1, 0, 1, 0], [4, 0, 0, 0], [1, 0, 1, 0], [4, 0, 0, 0]], [[5, 0, 0, 0]]]),
+    dict(kind='queue', maxsize=2, preemptions=2, owners=[0, 0, 2],
+         scripts=[[[0, 0, 1, 11]], [[0, 0, 1, 12]], [[1, 0, 1, 0], [1, 0, 1, 0]]]),
+    dict(kind='queue', maxsize=3, preemptions=1, owners=[0, 0, 0, 3],
+         scripts=[[[0, 0, 1, 11]], [[0, 0, 1, 12]], [[0, 0, 1, 13]], [[1, 0, 1, 0], [1, 0, 1, 0], [1, 0, 1, 0]]]),
+    dict(kind='queue', maxsize=2, preemptions=1, owners=[0, 0, 0],
+         scripts=[[[0, 0, 1, 11], [0, 0, 1, 13]], [[0, 0, 1, 12]], [[1, 0, 1, 0], [1, 0, 1, 0], [1, 0, 1, 0]]]),
 ]
 ENUM_THOROUGH = [
     dict(kind='joinable', maxsize=1, scripts=[[[3, 0, 1, 11]], [[1, 0, 1, 0], [4, 0, 0, 0]]]),
@@ -198,8 +249,15 @@ def gen_jobs(rng, n):
                     else:
                         sc.append([5, 0, 0, 0])
             scripts.append(sc)
-        jobs.append(dict(kind=kind, maxsize=maxsize, scripts=scripts, mode='random',
-                         seed=rng.randrange(1 << 30), n=per, ptimeout=rng.choice([0.1, 0.25, 0.5])))
+        job = dict(kind=kind, maxsize=maxsize, scripts=scripts, mode='random',
+                   seed=rng.randrange(1 << 30), n=per, ptimeout=rng.choice([0.1, 0.25, 0.5]))
+        # one job in three has several main threads per process (pairs sharing one queue object)
+        if rng.random() < 0.34:
+            owners = [0]
+            for p in range(1, nprocs):
+                owners.append(rng.choice(owners) if rng.random() < 0.6 else p)
+            job['owners'] = owners
+        jobs.append(job)
     return jobs
 
 
@@ -213,10 +271,10 @@ def cevent(e):
 
 def to_coq(r):
     endk = {'finished': 0, 'deadlock': 1}.get(r['end'], 2)
-    return ('(%d, %s, (%s : list (list qcall)), (%s : list (nat * bool)), ((%s : list event), (%s : list nat), '
+    return ('(%d, %s, (%s : list (list qcall)), (%s : list nat), (%s : list (nat * bool)), ((%s : list event), (%s : list nat), '
             '(%s : list (list Z)), (%s : list bool), (%s : list Z), (%s : list Z), (%s : list (list Z)), (%s : list Z), %d))') % (
         KINDS[r['kind']], cz(r['maxsize']),
-        clist(r['scripts'], lambda sc: clist(sc, ccall)),
+        clist(r['scripts'], lambda sc: clist(sc, ccall)), cowners(r),
         clist(r['sched'], lambda s: '(%d%%nat, %s)' % (s[0], cbool(s[1]))),
         clist(r['events'], cevent), clist(r['callidx'], lambda k: '%d%%nat' % k),
         clist(r['results'], lambda rs: clist(rs, cz)), clist(r['fins'], cbool),
@@ -224,8 +282,17 @@ def to_coq(r):
         clist(r['pend'], cz), endk)
 
 
+def owners_of(r):
+    """process of each pair (main thread 2q + feeder slot 2q+1); default: one main thread per process"""
+    return list(r.get('owners') or range(len(r['scripts'])))
+
+
+def cowners(r):
+    return clist(owners_of(r), lambda p: '%d%%nat' % p)
+
+
 def rec_key(r):
-    return json.dumps([r['kind'], r['maxsize'], r['scripts'], r['sched']])
+    return json.dumps([r['kind'], r['maxsize'], r['scripts'], owners_of(r), r['sched']])
 
 
 def nontrivial(r):
@@ -255,8 +322,8 @@ def search_generated(res, deep):
         for j, sel in enumerate(itertools.product(*[range(m) for m in ms])):
             shards.append(dict(ci=ci, j=j, text=(
                 'Eval vm_compute in (qsearch_job GenQ.code GenQ.FEED GenQ.queue_sems %d %s (%s : list (list qcall)) '
-                '%d %d [%s]%%nat).\n' % (KINDS[cfg['kind']], cz(cfg['maxsize']),
-                                         clist(cfg['scripts'], lambda sc: clist(sc, ccall)),
+                '(%s : list nat) %d %d [%s]%%nat).\n' % (KINDS[cfg['kind']], cz(cfg['maxsize']),
+                                         clist(cfg['scripts'], lambda sc: clist(sc, ccall)), cowners(cfg),
                                          cfg['preemptions'], SEARCH_FUEL,
                                          '; '.join('(%d, %d)' % (a, m) for a, m in zip(sel, ms))))))
     # one coqc per shard when the search is deep; the small quick configurations share one
@@ -302,11 +369,12 @@ def search_generated(res, deep):
         for ci, cfg in enumerate(configs):
             mine = sorted([sh for sh in shards if sh['ci'] == ci], key=lambda sh: sh['j'])
             hit = [sh for sh in mine if sh['found']]
-            per.append(dict(kind=cfg['kind'], maxsize=cfg['maxsize'], scripts=cfg['scripts'],
+            per.append(dict(kind=cfg['kind'], maxsize=cfg['maxsize'], scripts=cfg['scripts'], owners=owners_of(cfg),
                             preemptions=cfg['preemptions'], leaves=sum(sh['leaves'] for sh in mine),
                             failing_schedule_found=bool(hit)))
             for sh in hit[:2]:
-                found.append(dict(kind=cfg['kind'], maxsize=cfg['maxsize'], scripts=cfg['scripts'], sched=sh['sched'],
+                found.append(dict(kind=cfg['kind'], maxsize=cfg['maxsize'], scripts=cfg['scripts'],
+                                  owners=owners_of(cfg), sched=sh['sched'],
                                   mode='replay', origin='search'))
     finally:
         for f in files:
@@ -335,10 +403,10 @@ def classify(res, records, codes):
             res.broken.append(dict(kind='search', name='schedule fails a C16 monitor on the generated program but not on '
                                                        'the real classes (end %s)' % r['end'],
                                    detail=json.dumps(dict(kind=r['kind'], maxsize=r['maxsize'], scripts=r['scripts'],
-                                                          sched=r['sched'], requested=r.get('requested')))[:3000]))
+                                                          owners=owners_of(r), sched=r['sched'], requested=r.get('requested')))[:3000]))
     for i, code in codes:
         r = records[i]
-        replay = dict(kind=r['kind'], maxsize=r['maxsize'], scripts=r['scripts'], sched=r['sched'], impl=dict(
+        replay = dict(kind=r['kind'], maxsize=r['maxsize'], scripts=r['scripts'], owners=owners_of(r), sched=r['sched'], impl=dict(
             events=r['events'], results=r['results'], fins=r['fins'], vals=r['vals'], pipe=r['pipe'],
             bufs=r['bufs'], pend=r['pend'], end=r['end']))
         if code == 3:
@@ -360,9 +428,16 @@ def classify(res, records, codes):
                 signature='C16:monitor-or-result',
                 what='real %s violates a C16 monitor (loss/duplication/order/capacity/Full/Empty/join/lock left held/get '
                      'stuck beside a non-empty pipe) or returns a '
-                     'different result on the same history, under schedule %s of scripts %s: results %s, pipe %s, '
+                     'different result on the same history; more than one feeder thread started for one queue object, or '
+                     'Queue._start_thread clearing a non-empty buffer), under schedule %s of scripts %s%s: results %s, pipe %s, '
                      'end %s, blocked on %s%s'
-                     % (r['kind'], json.dumps(r['sched']), json.dumps(r['scripts']), json.dumps(r['results']),
+                     % (r['kind'], json.dumps(r['sched']), json.dumps(r['scripts']),
+                        '' if owners_of(r) == list(range(len(r['scripts'])))
+                        else ' (main threads 2q of processes %s: threads of one process share its queue object; feeder threads '
+                             'started: %s, items dropped by _start_thread\'s buffer.clear(): %d)'
+                             % (json.dumps(owners_of(r)), json.dumps([e[0] + 1 for e in r['events'] if e[1] == 102]),
+                                sum(e[3] for e in r['events'] if e[1] == 102)),
+                        json.dumps(r['results']),
                         json.dumps(r['pipe']), r['end'], json.dumps(r['pend']),
                         ' (schedule found by the search on the generated program, replayed on the real classes)'
                         if r.get('origin') == 'search' else ''),
@@ -411,6 +486,8 @@ def correspond(res, n, deep):
     terms = [to_coq(r) for r in records]
     codes, _ = core.coq_eval('C16', HEADER, core.chunks(terms, 200), timeout=600 if res.tier == 'quick' else 2400)
     classify(res, records, codes)
+    # report first a witness in which Queue._start_thread's buffer.clear() dropped an accepted item, if there is one
+    res.alarms.sort(key=lambda a: -sum(e[3] for e in a['replay']['impl']['events'] if e[1] == 102 and e[2] == 7))
     keys = {rec_key(r) for r in records if nontrivial(r)}
     ends, kinds, hist = {}, {}, {}
     for r in records:
@@ -424,10 +501,11 @@ def correspond(res, n, deep):
                               results=records[0]['results']),
                          dict(kind=records[-1]['kind'], scripts=records[-1]['scripts'], sched=records[-1]['sched'],
                               results=records[-1]['results'])],
-                rule='schedules of 2-4 processes (main thread + feeder thread Queue._feed each) running scripts of 1-4 '
+                rule='schedules of 2-4 main threads (each with the feeder thread Queue._feed its _start_thread would start; '
+                     'one main thread per process, or several main threads sharing the queue object of one process) running scripts of 1-4 '
                      'put/get/task_done/join calls on the real Queue / JoinableQueue / SimpleQueue (exhaustive DFS for the '
                      'listed small configurations, ALL schedules with at most K preemptions for the preemption-bounded ones, seeded random otherwise; corpus first); non-trivial = a message was '
-                     'received from the pipe and two logical threads stepped; distinct by (kind, maxsize, scripts, schedule); '
+                     'received from the pipe and two logical threads stepped; distinct by (kind, maxsize, scripts, process of each thread, schedule); '
                      'schedules found by the Coq search on the generated program table (c16_search) are replayed first',
                 c16_run_ends=ends, c16_kinds=kinds, c16_call_histogram=hist,
                 c16_steps_total=sum(len(r['sched']) for r in records),
@@ -439,6 +517,8 @@ def correspond(res, n, deep):
                 c16_unpicklable_offered=sum(1 for r in records for sc in r['scripts'] for c in sc
                                             if c[0] in (0, 3) and c[3] >= UNPICKLABLE),
                 c16_runs_with_ended_feeder=sum(1 for r in records if any(r['fins'][1::2])),
+                c16_runs_with_several_threads_in_a_process=sum(1 for r in records if len(set(owners_of(r))) < len(r['scripts'])),
+                c16_feeder_threads_started=sum(1 for r in records for e in r['events'] if e[1] == 102),
                 c16_enumerations_truncated=out['truncated'])
 
 
@@ -458,7 +538,8 @@ def run(res):
         'timed acquire / poll may give up at any step; the deadline of a timed get passes or not at the clock reading '
         '`deadline - monotonic()` as the scheduler chooses (deadline is an oracle)',
         'ForkingPickler.dumps raises exactly for the messages >= 1000 (objects whose __reduce_ex__ raises) and is the identity otherwise',
-        'one main thread per process; the queue is never closed; no process dies',
+        'any number of main threads per process (they interleave at semaphore / pipe / clock / _start_thread operations); '
+        'Queue._start_thread is one step; the queue is never closed; no process dies',
     ]
 
 
@@ -466,9 +547,12 @@ def replay(path):
     d = json.load(open(path))
     rp = d['replay']
     job = dict(kind=rp['kind'], maxsize=rp['maxsize'], scripts=rp['scripts'], sched=rp['sched'], mode='replay')
+    if rp.get('owners'):
+        job['owners'] = rp['owners']
     out = core.run_driver('c16_driver.py', dict(jobs=[job]))
     r = out['records'][0]
-    print('kind=%s maxsize=%s scripts: %s' % (r['kind'], r['maxsize'], json.dumps(r['scripts'])))
+    print('kind=%s maxsize=%s scripts: %s process of each (main thread, feeder slot) pair: %s'
+          % (r['kind'], r['maxsize'], json.dumps(r['scripts']), json.dumps(owners_of(r))))
     print('schedule:', json.dumps(rp['sched']))
     print('implementation now: events', json.dumps(r['events']))
     print('  results', json.dumps(r['results']), 'vals', r['vals'], 'pipe', r['pipe'], 'bufs', r['bufs'], 'end', r['end'])
